@@ -32,7 +32,8 @@ func C05(e *Env) {
 	b := newSkelBuilder(e)
 	if b.fr.ok && b.te.DataType != nil {
 		sks := b.skeletons(e.Tier)
-		emissionRules(e, sks, map[string]bool{"R05.1": true})
+		emissionRules(e, sks, map[string]bool{"R05.1": true, "R02.5": true})
+		r.Rule("R02.5", "every construction runs its own construction code: a service block registers a constructor closure, never a value evaluated once at container creation, which would hand one object to every context and every non_shared Get (shared with C02/C20)", 10)
 		getterRules(e, sks)
 		r.Rule("R13.2", "per-context instance identity needs the typed getters to pass their context on: GInContext calls c.GetInContext(ctx, own service), MustGInContext calls GInContext(ctx) (shared with C13)", 4)
 		r.Rule("R13.1", "method-set contract of the getters (shared with C13)", 4)
@@ -362,6 +363,27 @@ func c05Validator(e *Env) {
 		}
 		r.Check(gShared, "R05.3", key+"#subject-is-shared", "the error is raised only for a service declared shared", e.P.Pos(s.call.Pos()))
 		r.Check(gCtx, "R05.3", key+"#dependency-is-contextual", "the error is raised only for a dependency declared contextual", e.P.Pos(s.call.Pos()))
+		// the dependency is a service node: services, parameters, tags and decorators share the graph's
+		// name space, so a look-up by name alone takes a parameter or tag for the service of that name
+		gSvc := false
+		for _, b := range f.Blocks {
+			iff, ok := b.Instrs[len(b.Instrs)-1].(*ssa.If)
+			if !ok {
+				continue
+			}
+			cond, pos := iff.Cond, true
+			for {
+				u, isU := cond.(*ssa.UnOp)
+				if !isU || u.Op != token.NOT {
+					break
+				}
+				cond, pos = u.X, !pos
+			}
+			if isServiceKindTest(e, cond, 0) && edgeDominates(b, pos, s.call) {
+				gSvc = true
+			}
+		}
+		r.Check(gSvc, "R05.3", key+"#dependency-is-a-service", "the error is raised only for a dependency node of kind service (Dependency.IsService()): a parameter, tag or decorator that shares its name with a contextual service is not a dependency on that service", e.P.Pos(s.call.Pos()))
 		// names both services
 		names := 0
 		if sl, ok := s.call.Call.Args[len(s.call.Call.Args)-1].(*ssa.Slice); ok {
@@ -390,6 +412,28 @@ func c05Validator(e *Env) {
 	})
 	bg := len(findCalls(fn, e.P.ModPath+"/"+outputRel+".(Output).BuildDependencyGraph", true)) == 1
 	r.Check(okGraph && bg, "R05.3", key+"#uses-full-graph", "dependencies are graph.Deps(<subject's name>) of the graph built by Output.BuildDependencyGraph (all edge kinds: R07.1)")
+}
+
+// isServiceKindTest: v is Dependency.IsService() of the runtime's graph, directly or through a one-line
+// predicate of module code.
+func isServiceKindTest(e *Env, v ssa.Value, depth int) bool {
+	c, ok := v.(*ssa.Call)
+	if !ok || depth > 2 {
+		return false
+	}
+	g := c.Call.StaticCallee()
+	if g == nil {
+		return false
+	}
+	if g.Name() == "IsService" && g.Pkg != nil && strings.HasPrefix(g.Pkg.Pkg.Path(), load.RuntimeMod+"/") {
+		return true
+	}
+	if g.Pkg != nil && e.P.InModulePath(g.Pkg.Pkg.Path()) && len(g.Blocks) == 1 {
+		if ret, ok := g.Blocks[0].Instrs[len(g.Blocks[0].Instrs)-1].(*ssa.Return); ok && len(ret.Results) == 1 {
+			return isServiceKindTest(e, ret.Results[0], depth+1)
+		}
+	}
+	return false
 }
 
 // constCompare: cond is `x ==/!= const`, either written out or through a one-line predicate of module
